@@ -7,7 +7,6 @@ import (
 	"encoding/binary"
 	"fmt"
 	"math/big"
-	"strings"
 
 	"github.com/tink-crypto/tink-go/v2/aead"
 	"github.com/tink-crypto/tink-go/v2/core/registry"
@@ -484,5 +483,3 @@ func (e *env) idSection() {
 		}
 	}
 }
-
-var _ = strings.Join
